@@ -266,14 +266,24 @@ def c04(run):
     """C04: layout oracles inside the program batches + determinism of the expansion across
     fresh processes (fresh hash seeds) and crates."""
     import gen_c03, hashlib
-    progbatch(run)
+    replay_def = None
     if run.replay:
-        return
+        body = json.load(open(run.replay))
+        if body.get("sub") == "expansion-determinism" and (body.get("case") or {}).get("def"):
+            replay_def = body["case"]["def"]
+        else:
+            progbatch(run)
+            return
+    else:
+        progbatch(run)
     exp = build_expander()
     n_random, n_groups = (80, 24) if run.tier == "quick" else (800, 200)
-    defs = gen_c03.make_defs(run.seed, n_random, n_groups)
-    if run.tier == "quick":
-        defs = [d for k, d in enumerate(defs) if d["id"][0] in "rgx" or k % 9 == 0]
+    if replay_def:
+        defs = [replay_def]
+    else:
+        defs = gen_c03.make_defs(run.seed, n_random, n_groups)
+        if run.tier == "quick":
+            defs = [d for k, d in enumerate(defs) if d["id"][0] in "rgx" or k % 9 == 0]
     os.makedirs(common.WORK, exist_ok=True)
     defs_file = os.path.join(common.WORK, f"c04-defs-{os.getpid()}.json")
     json.dump(defs, open(defs_file, "w"))
@@ -304,6 +314,7 @@ def c04(run):
         return t
 
     viol, evals, nt, samples = [], 0, 0, []
+    order_checked = order_nt = 0
     ref = results[0][1]
     for d in defs:
         evals += 1
@@ -315,6 +326,17 @@ def c04(run):
             nt += 1
         if len(samples) < 3 and n_structs >= 2:
             samples.append({"sub": "expansion-determinism", "case": {"id": d["id"], "src": d["src"][:300], "structs": [(s["name"], [f[0] for f in s["fields"]]) for s in ref[d["id"]][:4]]}})
+        # one function pointer per exported method, in declaration order
+        if d.get("exported") is not None and isinstance(ref.get(d["id"]), list) and not any(v["key"] == "C04:vtable-order" for v in viol):
+            vt = [s for s in ref[d["id"]] if s["name"] == d["trait"] + "Vtbl"]
+            got = [f[0] for f in vt[0]["fields"] if not f[0].startswith("_")] if vt else None
+            order_checked += 1
+            if len(d["exported"]) >= 2:
+                order_nt += 1
+            if got != d["exported"]:
+                viol.append({"sub": "expansion-determinism", "key": "C04:vtable-order",
+                             "what": f"definition {d['id']} ({d.get('label')}): the generated vtable struct has the function pointers {got}; the exported methods in declaration order are {d['exported']}",
+                             "case": {"id": d["id"], "src": d["src"], "def": d}})
         if len(variants) > 1:
             a, b = list(variants.items())[:2]
             # first differing struct
@@ -322,10 +344,10 @@ def c04(run):
             diff = next(((x, y) for x, y in zip(la, lb) if x != y), (la[:1], lb[:1])) if isinstance(la, list) and isinstance(lb, list) else (la, lb)
             viol.append({"sub": "expansion-determinism", "key": "C04:nondeterministic-layout",
                          "what": f"definition {d['id']} ({d.get('label')}): {len(variants)} different struct/field lists over {nproc} fresh processes; e.g. {json.dumps(diff)[:500]}",
-                         "case": {"id": d["id"], "src": d["src"]}})
+                         "case": {"id": d["id"], "src": d["src"], "def": d}})
             break
-    run.add_result({"_label": "determinism", "evaluations": evals, "distinct_nontrivial": nt, "samples": samples, "violations": viol, "classes": {"determinism:definitions": evals, "determinism:processes": nproc}, "known_seen": {},
-                    "rule": f"each definition (enumerated single-method traits, random traits, random groups incl. groups with built-in external traits) is expanded by /repo's generator in {nproc} fresh processes (fresh RandomState) under three different expanding crates; the ordered list (struct name, [(field name, field type)]) of every repr(C) struct must be identical (the path prefix naming the runtime crate normalised). Non-trivial = the expansion contains at least one repr(C) struct"})
+    run.add_result({"_label": "determinism", "evaluations": evals, "distinct_nontrivial": nt, "samples": samples, "violations": viol, "classes": {"determinism:definitions": evals, "determinism:processes": nproc, "vtable-order:traits": order_checked, "vtable-order:traits-with-2+-entries": order_nt}, "known_seen": {},
+                    "rule": f"each definition (enumerated single-method traits, random traits, random groups incl. groups with built-in external traits) is expanded by /repo's generator in {nproc} fresh processes (fresh RandomState) under three different expanding crates; the ordered list (struct name, [(field name, field type)]) of every repr(C) struct must be identical (the path prefix naming the runtime crate normalised); and for every trait definition the fields of the generated `<Trait>Vtbl` struct must be exactly the exported methods (not #[skip_func]; including #[vtbl_only]) in declaration order. Non-trivial = the expansion contains at least one repr(C) struct"})
 
 
 def c20(run):
